@@ -22,7 +22,8 @@ def universe():
     atoms = [
         (None, "PvNone"), (True, "(PvBool true)"), (False, "(PvBool false)"), (0, "(PvInt 0)"), (5, "(PvInt 5)"), (-3, "(PvInt (-3))"),
         (0.0, "(PvFloat (NFin 0 0))"), (2.5, "(PvFloat (NFin 5 (-1)))"), (float("inf"), "(PvFloat NPInf)"),
-        ("", "(PvStr [])"), ("s", "(PvStr [115%N])"), ("_none", f"(PvStr {M.cstr('_none')})"), (b"", "(PvBytes [])"), (b"by", "(PvBytes [98%N; 121%N])"),
+        ("", "(PvStr [])"), ("s", "(PvStr [115%N])"), ("3.5", f"(PvStr {M.cstr('3.5')})"), ("12", f"(PvStr {M.cstr('12')})"), (" 42 ", f"(PvStr {M.cstr(' 42 ')})"),
+        ("nan", f"(PvStr {M.cstr('nan')})"), (b"12", "(PvBytes [49%N; 50%N])"), ("_none", f"(PvStr {M.cstr('_none')})"), (b"", "(PvBytes [])"), (b"by", "(PvBytes [98%N; 121%N])"),
         (T0, f"(PvTime {M.cz(M.us_of(T0))})"), (T0.astimezone(timezone(timedelta(hours=3))), f"(PvTime {M.cz(M.us_of(T0))})"),
         (T0.replace(tzinfo=None), "(PvTime 0)"),
         ([], "(PvList [])"), (["a", "b"], "(PvList [PvStr [97%N]; PvStr [98%N]])"), (["a", 1], "(PvList [PvStr [97%N]; PvInt 1])"), ((), "(PvList [])"),
